@@ -9,6 +9,8 @@ def run():
     chk.add_model("RwMutexImpl (op-state stack CAS vs. done() exchange, 3 ops)", vlib.model_check("RwMutexImpl", "RwMutexImpl.cfg", timeout=600))
     r = vlib.model_check("RwMutexImpl", "RwMutexImpl_dev.cfg", expect_ok=False, timeout=600)
     chk.add_model("RwMutexImpl/variant check_once (must violate)", r, note="violated: %s" % r["violated"])
+    r2 = vlib.model_check("RwMutexImpl", "RwMutexImpl_dev2.cfg", expect_ok=False, timeout=600)
+    chk.add_model("RwMutexImpl/variant done_load_store (must violate)", r2, note="violated: %s" % r2["violated"])
     (binary,) = vlib.build_harness(["rw_harness"])
     nruns = 64 if chk.thorough() else 16
     nhist = 1500 if chk.thorough() else 500
